@@ -29,18 +29,37 @@ type Case struct {
 	Tape  *simrt.Tape
 	Trace bool
 	// filled in by the check
-	Incs       int
-	Steps      int
-	SimNS      int64
-	Hash       uint64
-	Tasks      int
-	Features   map[string]bool
-	Faults     map[string]int
-	Probes     map[string]int
-	Sample     string
-	TraceLog   []string
+	Incs        int
+	Steps       int
+	SimNS       int64
+	Hash        uint64
+	Tasks       int
+	Features    map[string]bool
+	Faults      map[string]int
+	Probes      map[string]int
+	Sample      string
+	TraceLog    []string
 	CrashStates int
-	Notes      []string
+	Notes       []string
+	// KnownID tells whether a verdict matches an entry of the committed
+	// known-findings file (so that an enumeration can go on past it)
+	KnownID func(v Verdict) string
+	Masked  map[string]int
+}
+
+// Known reports (and counts) a violation that is a listed known finding.
+func (c *Case) Known(v Verdict) bool {
+	if c.KnownID == nil || v.Status != "violation" {
+		return false
+	}
+	if id := c.KnownID(v); id != "" {
+		if c.Masked == nil {
+			c.Masked = map[string]int{}
+		}
+		c.Masked[id]++
+		return true
+	}
+	return false
 }
 
 func NewCase(prop, tier string, t *simrt.Tape) *Case {
